@@ -32,10 +32,19 @@ fn sep_bytes(cfg: &xargs::Config) -> Vec<u8> {
 
 fn gen_mode_opts(rng: &mut Rng) -> Vec<Opt> {
     let mut opts = vec![];
-    match rng.weighted(&[5, 3, 3]) {
+    match rng.weighted(&[10, 6, 6, 1]) {
         0 => {}
         1 => opts.push(Opt::Null),
-        _ => opts.push(Opt::Delim(rng.pick(DELIMS).to_string())),
+        2 => opts.push(Opt::Delim(rng.pick(DELIMS).to_string())),
+        _ => {
+            // both -0 and -d C: one of the two bytes is the delimiter (the statement does not
+            // say which; the oracle accepts either, consistently) - never blanks and quotes
+            opts.push(Opt::Null);
+            opts.push(Opt::Delim(rng.pick(&[",", "\\n", "a", ":"]).to_string()));
+            if rng.chance(1, 2) {
+                opts.swap(0, 1);
+            }
+        }
     }
     if rng.chance(2, 5) {
         // -L 1 reveals which arguments end an input line
@@ -56,8 +65,9 @@ fn gen_input(rng: &mut Rng, cfg: &xargs::Config, long: bool) -> Vec<u8> {
                     let part = gen_delim_input(rng, nf, d, true);
                     out.extend_from_slice(&part);
                     if rng.chance(1, 3) {
-                        // one long field so that tokens straddle the buffer
-                        for _ in 0..rng.urange(100, 3000) {
+                        // one long field so that tokens straddle the buffer (BufReader: 8192 bytes)
+                        let flen = if rng.chance(1, 3) { rng.urange(4000, 9500) } else { rng.urange(100, 3000) };
+                        for _ in 0..flen {
                             let b = *rng.pick(b"ab '\"\\");
                             if b != d {
                                 out.push(b);
@@ -99,9 +109,19 @@ fn gen_input(rng: &mut Rng, cfg: &xargs::Config, long: bool) -> Vec<u8> {
                         out.push(b'\n');
                     }
                 }
-                if rng.chance(1, 10) {
-                    out.push(b'\'');
-                    out.push(b'x');
+                match rng.weighted(&[16, 2, 2]) {
+                    0 => {}
+                    1 => {
+                        out.push(b'\'');
+                        out.push(b'x');
+                    }
+                    _ => {
+                        // a quote that is never closed, with a lot of text after it
+                        out.push(*rng.pick(&[b'\'', b'"']));
+                        for _ in 0..rng.urange(1, 6000) {
+                            out.push(*rng.pick(b"ab \t"));
+                        }
+                    }
                 }
                 out
             } else if rng.chance(1, 3) {
@@ -198,10 +218,32 @@ impl Property for C05 {
     }
 
     fn check(sc: &Sc, ctx: &mut Ctx, rep: &mut Report) {
-        let cfg = resolve(&sc.base.opts);
+        let mut cfg = resolve(&sc.base.opts);
         let input = &sc.base.input.0;
-        let spec = tokenize(&cfg, input);
-        let exp = expect(&sc.base, &cfg, &spec);
+        let mut spec = tokenize(&cfg, input);
+        let mut exp = expect(&sc.base, &cfg, &spec);
+        let has_null = sc.base.opts.iter().any(|o| matches!(o, Opt::Null));
+        let has_delim = sc.base.opts.iter().any(|o| matches!(o, Opt::Delim(_)));
+        if has_null && has_delim {
+            // which of the two bytes wins is not part of the statement: follow the code's choice
+            // (seen on the one-chunk plan), then hold it to that choice under every other plan
+            rep.probe("both_null_and_delimiter_options");
+            let first = run_xargs_with(&sc.base, &[], ctx);
+            if first.spawn_argvs() != exp.spawns {
+                let mut alt = sc.base.clone();
+                let later = alt.opts.iter().rposition(|o| matches!(o, Opt::Null | Opt::Delim(_))).unwrap();
+                alt.opts.remove(later);
+                let acfg = resolve(&alt.opts);
+                let aspec = tokenize(&acfg, input);
+                let mut aexp = expect(&alt, &acfg, &aspec);
+                if first.spawn_argvs() == aexp.spawns {
+                    rep.probe("delimiter_option_given_first_wins");
+                    cfg = acfg;
+                    spec = aspec;
+                    std::mem::swap(&mut exp, &mut aexp);
+                }
+            }
+        }
         let states = if cfg.delim.is_none() {
             Some(default_states(input))
         } else {
@@ -471,6 +513,11 @@ impl Property for C05 {
             }
         }
         out
+    }
+
+    fn crosscheck(sc: &Sc, ctx: &mut Ctx, bins: &std::path::Path) -> crate::crosscheck::Xc {
+        let plan = sc.plans.last().cloned().unwrap_or_default();
+        crate::crosscheck::xargs(&sc.base, &plan, ctx, bins)
     }
 
     fn rule() -> &'static str {
